@@ -23,10 +23,13 @@ Obs(e) ==
    /\ Clause("live", e.o.live = (IF live' = 0 THEN 0 ELSE 1))
    /\ Clause("probes", Dev = "tcp" => e.o.probes = probes')
    /\ Clause("afterstop", e.o.after_stop = 0)
+   /\ Clause("orphans", e.o.orphans = orphans')
    /\ Clause("quiescent", e.o.quiescent)
 StepAction(e) ==
   \/ e.a = "Start" /\ Start
   \/ e.a = "Attempt" /\ Attempt(e.ok)
+  \/ e.a = "DialBegin" /\ DialBegin
+  \/ e.a = "DialEnd" /\ DialEnd(e.ok)
   \/ e.a = "ReadError" /\ ReadError
   \/ e.a = "WriteError" /\ WriteError
   \/ e.a = "PeerClose" /\ PeerClose
@@ -38,7 +41,7 @@ TInit == Init /\ tid \in 1..Len(Traces) /\ pos = 1
 \* the real system is never late: the same urgency rule as NextTimed
 TNext == /\ pos <= Len(Traces[tid].ev) /\ pos' = pos + 1 /\ tid' = tid
          /\ StepAction(Ev) /\ Obs(Ev)
-         /\ Clause("urgent", Urgent => Ev.a \in {"Attempt", "Watchdog", "Stop"})
+         /\ Clause("urgent", Urgent => Ev.a \in {"Attempt", "DialBegin", "Watchdog", "Stop"})
 TSpec == TInit /\ [][TNext]_tvars
 Track == TLCSet(tid, IF TLCGet(tid) < pos THEN pos ELSE TLCGet(tid))
 Rejected == {t \in 1..Len(Traces) : TLCGet(t) # Len(Traces[t].ev) + 1}
